@@ -560,6 +560,26 @@ def _o_batch_cancelling_pair(w):
     return ok is False, f"batch={ok} size={len(items)} cancelling pair at {i},{j}"
 
 
+def _o_batch_single_equiv(w):
+    """a batch of ONE is the single verification: same verdict and same refusal class, under every hash function"""
+    ec, hf = _ec(w["curve"]), _HF[w["hf"]]
+    msg, q, aux = bytes.fromhex(w["msg"]), w["q"], bytes.fromhex(w["aux"])
+    with backend(w.get("lib", False)):
+        sg = ssa.sign_(msg, q, aux, ec, hf)
+        item = (msg, ssa.gen_keys(q, ec)[1], sg.r, sg.s)
+        if w["how"] != "valid":
+            item = _tamper(item, w["how"], ec)
+        m, x, r, sv = item
+        single = ssa.verify_(m, x, _sig(r, sv, ec), hf)
+        batch = ssa.batch_verify_([m], [x], [_sig(r, sv, ec)], hf)
+        c1 = _unit(ssa.assert_as_valid_, m, x, _sig(r, sv, ec), hf)
+        c2 = _unit(ssa.assert_batch_as_valid_, [m], [x], [_sig(r, sv, ec)], hf)
+        hashed = ssa.batch_verify([m], [x], [ssa.sign(m, q, aux, ec, hf)], hf) if w["how"] == "valid" else True
+    ok = single is batch and c1 == c2 and single is (w["how"] == "valid") and hashed is True
+    return ok, (f"{w['curve']}/{w['hf']} member {w['how']}: verify_={single} ({c1}), batch_verify_ of that one member={batch} ({c2}), "
+                f"hashed spelling={hashed}; q={q} msg={msg.hex()} aux={aux.hex()} bindings serving={w.get('lib', False)}")
+
+
 def _o_codec(w):
     r, s = w["r"], w["s"]
     try:
@@ -650,6 +670,7 @@ ORACLES = {
     "batch.one_tampered": _o_batch_one_tampered,
     "batch.at_most_one_coeff": _o_batch_at_most_one_coeff,
     "batch.cancelling_pair": _o_batch_cancelling_pair,
+    "batch.single_equiv": _o_batch_single_equiv,
     "codec.roundtrip": _o_codec,
     "codec.canonical": _o_parse_canonical,
     "s2c.opens": _o_s2c,
@@ -1006,6 +1027,14 @@ def _run(ctx, rng, thorough):  # noqa: C901, PLR0912, PLR0915
                 for pos in (range(size) if size <= 8 else [0, 27, size - 1]):
                     ctx.check("batch.one_tampered", {"curve": K1, "hf": "sha256", "members": members, "lib": lib,
                                                      "pos": pos, "how": rng.choice(["s", "msg", "r", "x", "s+n", "negs"])})
+    # batch of one ≡ single verify: every hash function offered × valid / invalid member × both arms (+ other curves)
+    for lib in (False, True):
+        for hf in _HF:
+            for tok in [K1] + ([rng.choice([t for t in _EC if t != K1 and not t.startswith("toy:")])] if not lib else []):
+                for how in ["valid"] + rng.sample(["s", "msg", "r", "x", "s+n", "negs"], ctx.n(2, 6)):
+                    ctx.check("batch.single_equiv", {"curve": tok, "hf": hf, "msg": _rb(rng, rng.choice([0, 32, 45])).hex(),
+                                                     "q": rng.randrange(1, _ec(tok).n), "aux": _aux(rng, _hflen(hf)).hex(),
+                                                     "how": how, "lib": lib})
     ser, par = _codec_lines(ctx, rng, ctx.n(60, 800))
     ctx.stream("ssa.ser", ser)
     ctx.stream("ssa.parse", par)
